@@ -39,6 +39,10 @@ sim::Json generate(const std::string& tier, uint64_t seed, uint64_t index) {
   if (rng.chance(0.7)) { cvt_names = (int)rng.below(4); static const char* nn[] = {"cvt:names", "names", "modelnames"}; opts.push_back(std::string(nn[rng.below(3)]) + "=" + std::to_string(cvt_names)); }
   if (rng.chance(0.75)) { auto a = acc_profile(rng); opts.insert(opts.end(), a.begin(), a.end()); }
   if (rng.chance(0.2)) opts.push_back("cvt:pre:all=0");
+  // another objective than the first may be the one delivered: it keeps its own name
+  long objno = 1;
+  if ((int)m.objs.size() >= 2 && rng.chance(0.35)) { objno = rng.range(1, (long)m.objs.size()); static const char* on[] = {"obj:no", "objno"}; opts.push_back(std::string(on[rng.below(2)]) + "=" + std::to_string(objno)); }
+  sc.set("objno", objno);
   opts.push_back("sol:chk:mode=0");
   rng.shuffle(opts);
   place_options(rng, sc, opts);
@@ -101,7 +105,11 @@ void judge(const sim::Json& sc, const RunRecord& rec, sim::RunResult& r) {
     // (3) objectives
     for (auto& o : sm.objs) {
       if (o.name.empty()) flag("EMPTY_NAME", "obj", "objective " + std::to_string(o.iobj) + " has an empty name");
-      else if (o.iobj == 0 && no >= 1 && o.name != origs[(size_t)(n + m + nl)]) flag("UNFAITHFUL_NAME", "obj", "objective 1 should be named '" + origs[(size_t)(n + m + nl)] + "', the solver got '" + o.name + "'");
+      else if (o.iobj == 0 && no >= 1) {
+        long k = sc["objno"].as_int(1); if (k < 1 || k > no) k = 1;
+        const std::string& want = origs[(size_t)(n + m + nl + k - 1)];
+        if (o.name != want) flag("UNFAITHFUL_NAME", k == 1 ? "obj" : "obj:objno", "objective " + std::to_string(k) + " (the one delivered) should be named '" + want + "', the solver got '" + o.name + "'");
+      }
     }
     // (4) original linear rows that reach the solver unchanged keep their name; (5) derived items extend a source name
     // SOS sets declared through .sosno/.ref or .sos/.sosref suffixes are modelling items without a name of their own:
